@@ -79,6 +79,7 @@ type FuncSpec struct {
 	Ghost    []string
 	Fresh    []Clause // results declared fresh
 	Reveal   []string // opaque macros unfolded while verifying this function
+	Havocs   []Clause // arguments whose reachable memory is arbitrary after the call
 }
 
 // Macro is a spec-level definition.
@@ -244,39 +245,49 @@ func splitWord(s string) (string, string) {
 	return s[:i], strings.TrimSpace(s[i:])
 }
 
-// parseHeader parses  Name(p1, p2) (r1, r2)
+// parseHeader parses  Name(p1, p2) (r1, r2); Name may itself contain a
+// parenthesised receiver, e.g. pkg.(*T).Method.
 func parseHeader(fs *FuncSpec, s string) error {
 	s = strings.TrimSpace(s)
-	// name runs up to the parameter list: find the "(" that starts params.
-	// Method names look like "(*T).Get(" so skip a leading parenthesised receiver.
-	i := 0
-	if strings.HasPrefix(s, "(") {
-		j := strings.Index(s, ")")
-		if j < 0 {
-			return fmt.Errorf("bad receiver in %q", s)
+	type grp struct{ a, b int }
+	var groups []grp
+	depth, st := 0, -1
+	for i, r := range s {
+		switch r {
+		case '(':
+			if depth == 0 {
+				st = i
+			}
+			depth++
+		case ')':
+			depth--
+			if depth == 0 && st >= 0 {
+				groups = append(groups, grp{st, i})
+				st = -1
+			}
 		}
-		i = j + 1
 	}
-	k := strings.Index(s[i:], "(")
-	if k < 0 {
+	if len(groups) == 0 {
 		return fmt.Errorf("missing parameter list in %q", s)
 	}
-	fs.Name = strings.TrimSpace(s[:i+k])
-	rest := s[i+k:]
-	j := strings.Index(rest, ")")
-	if j < 0 {
-		return fmt.Errorf("unterminated parameter list")
+	last := groups[len(groups)-1]
+	if strings.TrimSpace(s[last.b+1:]) != "" {
+		return fmt.Errorf("unexpected text after header: %q", s[last.b+1:])
 	}
-	fs.Params = splitNames(rest[1:j])
-	rest = strings.TrimSpace(rest[j+1:])
-	if strings.HasPrefix(rest, "(") {
-		j := strings.Index(rest, ")")
-		if j < 0 {
-			return fmt.Errorf("unterminated result list")
+	params := last
+	if len(groups) >= 2 {
+		prev := groups[len(groups)-2]
+		between := s[prev.b+1 : last.a]
+		if strings.TrimSpace(between) == "" && between != "" {
+			// "...(params) (results)"
+			params = prev
+			fs.Results = splitNames(s[last.a+1 : last.b])
 		}
-		fs.Results = splitNames(rest[1:j])
-	} else if rest != "" {
-		return fmt.Errorf("unexpected text after header: %q", rest)
+	}
+	fs.Name = strings.TrimSpace(s[:params.a])
+	fs.Params = splitNames(s[params.a+1 : params.b])
+	if fs.Name == "" {
+		return fmt.Errorf("missing function name in %q", s)
 	}
 	return nil
 }
@@ -434,6 +445,14 @@ func parseClause(fs *FuncSpec, word, rest string, line int) error {
 		fs.Ghost = append(fs.Ghost, splitNames(rest)...)
 	case "reveal":
 		fs.Reveal = append(fs.Reveal, splitNames(rest)...)
+	case "havocs":
+		for _, part := range splitTop(rest) {
+			x, err := ParseExpr(part)
+			if err != nil {
+				return fmt.Errorf("havocs: %v", err)
+			}
+			fs.Havocs = append(fs.Havocs, Clause{Expr: x, Text: part, Line: line})
+		}
 	default:
 		return fmt.Errorf("unknown clause %q", word)
 	}
